@@ -1407,10 +1407,11 @@ static const char *ev_name(uint32_t t)
   return "?";
 }
 
-static void dump_history(const Config &c, const std::string &subject_name, const std::vector<Event> &ev)
+static void dump_history(const Config &c, const std::string &subject_name, const std::vector<Event> &ev,
+                         const char *prefix = "history")
 {
   auto &R          = vf::report();
-  std::string path = R.opt.out + "/history-" + std::to_string(R.current_case()) + ".jsonl";
+  std::string path = R.opt.out + "/" + prefix + "-" + std::to_string(R.current_case()) + ".jsonl";
   FILE *f          = fopen(path.c_str(), "w");
   if (!f)
     return;
@@ -1722,8 +1723,16 @@ static void run_history(uint64_t seed, bool thorough)
   Stats st;
   uint64_t viol_before = R.violations_total();
   check_history(c, sname.c_str(), ev, slow, sig, st);
+  // cross-validation of the two checkers: every xcheck-th history on which this checker found nothing is dumped
+  // too and re-checked by the independent implementation in monitors/history.py (the driver compares the verdicts)
+  static const uint64_t xcheck = static_cast<uint64_t>(R.opt.param("xcheck", 0));
   if (R.violations_total() != viol_before)
     dump_history(c, sname, ev);
+  else if (xcheck && R.current_case() % xcheck == 0)
+  {
+    dump_history(c, sname, ev, "xcheck");
+    R.count("histories_dumped_for_cross_check");
+  }
   R.signature(sig);
   R.count("histories_" + sname);
   R.count("events", ev.size());
